@@ -5,7 +5,7 @@ From Coq Require Import Lia Sorted.
 From SV Require Import Spec.QuietSpec Proofs.QuietProofs.
 From SV Require Import Model.Sliding Proofs.TumblingProofs Proofs.TumblingComplete Proofs.SlidingProofs Proofs.SlidingComplete.
 From SV Require Import Spec.SlideSpec Proofs.TumblingSpecSound Proofs.SlidingSpecSound.
-From SV Require Import Proofs.SlidingKept Spec.SlideKeptSpec.
+From SV Require Import Proofs.SlidingKept Spec.SlideKeptSpec Proofs.SlidingKeptPass.
 
 (* every emitted interval is [s, s+size) with s a multiple of the slide, and holds only rows that
    were added with a timestamp inside it (slide dividing size or not, slide = size, slide > size) *)
@@ -156,4 +156,56 @@ Example C08_kept_example :
   /\ chk_C08_kept ex_scfg_kept 0
        (filter (fun e => match e with EvBatch b => b_start b =? 1000 | _ => true end) (snd (srun ex_scfg_kept sst0 ex_kept_hist)))
      = Some ((3, 1012), 1010).
+Proof. vm_compute. repeat split. Qed.
+
+(* The clause of Spec/SlideKeptSpec.v (chk_C08_kept, applied to the real trace) proved of the model for ALL histories:
+   a row ingested while the watermark wmk is being handled, with a timestamp inside the current slot, is reported in
+   every interval [a, a+size) on the slot grid at or after the slot that covers it and whose end wmk has passed, before
+   the handling of wmk can end - whatever is interleaved (h2: further Adds, ticks, firing steps): as long as no EvDE
+   was emitted, either the row has been reported in [a, a+size) or the next firing step still fires an interval that
+   starts at or before a (so it cannot emit EvDE) *)
+Theorem C08_kept_row_reported_before_pass_ends : forall c h1 id ts now h2 s1 tr1 s2 tr2 wmk a k,
+  0 < sslide c -> 0 < ssize c ->
+  Forall nonneg_op (h1 ++ Add id ts now :: h2) ->
+  srun c sst0 h1 = (s1, tr1) ->
+  s_pend s1 = Some wmk -> s_init s1 = true -> sinwin c (s_slot s1) ts = true ->
+  0 <= k -> a = s_slot s1 + k * sslide c -> a <= ts < a + ssize c -> a + ssize c <= wmk ->
+  srun c s1 (Add id ts now :: h2) = (s2, tr2) ->
+  ~ In EvDE tr2 ->
+  sreported (id, ts) a tr2 \/ exists b, snd (sfire_step c s2) = [EvBatch b] /\ b_start b <= a.
+Proof.
+  intros c h1 id ts now h2 s1 tr1 s2 tr2 wmk a k Hs Hz.
+  exact (sliding_kept_row_reported_before_pass_ends c Hs Hz h1 id ts now h2 s1 tr1 s2 tr2 wmk a k).
+Qed.
+Print Assumptions C08_kept_row_reported_before_pass_ends.
+
+(* ... hence at the step that ends the pass the row HAS been delivered in [a, a+size) *)
+Theorem C08_kept_row_reported_at_pass_end : forall c h1 id ts now h2 s1 tr1 s2 tr2 wmk a k,
+  0 < sslide c -> 0 < ssize c ->
+  Forall nonneg_op (h1 ++ Add id ts now :: h2) ->
+  srun c sst0 h1 = (s1, tr1) ->
+  s_pend s1 = Some wmk -> s_init s1 = true -> sinwin c (s_slot s1) ts = true ->
+  0 <= k -> a = s_slot s1 + k * sslide c -> a <= ts < a + ssize c -> a + ssize c <= wmk ->
+  srun c s1 (Add id ts now :: h2) = (s2, tr2) ->
+  ~ In EvDE tr2 ->
+  snd (sfire_step c s2) = [EvDE] ->
+  exists b, In b (firsts tr2) /\ b_start b = a /\ In (id, ts) (b_rows b).
+Proof.
+  intros c h1 id ts now h2 s1 tr1 s2 tr2 wmk a k Hs Hz.
+  exact (sliding_kept_row_reported_at_pass_end c Hs Hz h1 id ts now h2 s1 tr1 s2 tr2 wmk a k).
+Qed.
+Print Assumptions C08_kept_row_reported_at_pass_end.
+
+(* the premises are met by the history of C08_kept_example: after the first six steps the watermark 1031 is pending and
+   the slot is 1005; row 3 (1012) arrives inside the slot; a = 1010 (k = 1) covers it and has ended before 1031; two
+   firing steps later the next step would end the pass, and [1010,1020) has been delivered with the row *)
+Example C08_kept_pass_example :
+  let h1 := firstn 6 ex_kept_hist in
+  let s1 := fst (srun ex_scfg_kept sst0 h1) in
+  let r2 := srun ex_scfg_kept s1 [Add 3 1012 0; FireStep; FireStep] in
+  s_pend s1 = Some 1031 /\ s_init s1 = true /\ s_slot s1 = 1005 /\ sinwin ex_scfg_kept (s_slot s1) 1012 = true /\
+  existsb (fun e => match e with EvDE => true | _ => false end) (snd r2) = false /\
+  snd (sfire_step ex_scfg_kept (fst r2)) = [EvDE] /\
+  firsts (snd r2) = [ {| b_start := 1005; b_end := 1015; b_rows := [(3, 1012)]; b_late := false |};
+                      {| b_start := 1010; b_end := 1020; b_rows := [(3, 1012)]; b_late := false |} ].
 Proof. vm_compute. repeat split. Qed.
